@@ -57,7 +57,7 @@ var (
 	kX  = enum.Kind{Line: fn("xd", 4), Tag: "xd"}
 	kM  = enum.Kind{Line: fn("dk", 5), Tag: "dk"}
 	kE  = enum.Kind{Line: ap.Line{Func: "", File: "e.go", Start: 5, Line: 6}, Tag: "''"} // function without a name
-	kN  = enum.Kind{Unsym: true, Tag: "?"}                                             // location without lines
+	kN  = enum.Kind{Unsym: true, Tag: "?"}                                               // location without lines
 	kDa = enum.Kind{Line: fn("d(int)", 7), Tag: "d(int)"}
 	kDp = enum.Kind{Line: fn(".d", 8), Tag: ".d"}
 	kDn = enum.Kind{Line: fn("(anonymous namespace)::d", 9), Tag: "(anonymous namespace)::d"}
@@ -187,9 +187,14 @@ func Run(c *vk.Ctx) {
 		idx++
 	}
 
+	// The two tiny families below run as a whole on the first shard, so that
+	// their non-vacuity guards can be evaluated there.
+	small := c.NShards <= 1 || c.Shard == 0
+
 	// Family "spelling": name simplification before matching.
 	for _, name := range spellNames {
-		if c.Mine(idx) {
+		if small {
+			c.SetCase(idx)
 			checkSpelling(c, name)
 		}
 		idx++
@@ -198,7 +203,8 @@ func Run(c *vk.Ctx) {
 	// Family "legacy": built-in expressions of legacy profiles.
 	for fi := range legacyFormats {
 		for ni := range legacyNames {
-			if c.Mine(idx) {
+			if small {
+				c.SetCase(idx)
 				checkLegacy(c, fi, ni)
 			}
 			idx++
@@ -239,10 +245,11 @@ func Run(c *vk.Ctx) {
 	}
 
 	// Family "pair": two samples sharing locations, narrow alphabet.
+	mine := 0
 	for i := range narrow {
 		for j := i; j < len(narrow); j++ {
 			if c.Mine(idx) {
-				if idx&0xff == 0 && expired() {
+				if mine++; mine&0xff == 0 && expired() {
 					return
 				}
 				a := build(sigma4, narrow[i], narrow[j])
@@ -258,11 +265,16 @@ func Run(c *vk.Ctx) {
 		}
 	}
 
-	// Non-vacuity guards (every shard sees every family, so they hold per shard).
-	for _, k := range []string{"drop/cut", "drop/cut-inside-location", "drop/leading-match-kept", "drop/unchanged",
+	// Non-vacuity guards. Every shard sees hundreds of cases of the large
+	// families, so these hold per shard; the tiny families are judged where
+	// they ran.
+	guards := []string{"drop/cut", "drop/cut-inside-location", "drop/cut-at-leaf", "drop/leading-match-kept", "drop/unchanged",
 		"drop/no-expression", "drop/invalid-expression", "drop/shared-location-cut-in-one-sample-only",
-		"prune_from/cut", "prune_from/cut-inside-location", "prune_from/unchanged",
-		"spelling/named", "spelling/not-named", "legacy/named", "e2e/traces-compared"} {
+		"prune_from/cut", "prune_from/cut-inside-location", "prune_from/unchanged", "e2e/traces-compared"}
+	if small {
+		guards = append(guards, "spelling/named", "spelling/not-named", "legacy/named", "legacy/named-and-kept")
+	}
+	for _, k := range guards {
 		if c.Counter(k) == 0 {
 			c.Vacuous("no case with " + k)
 		}
